@@ -801,7 +801,7 @@ pub fn run(which: Which, ctx: &mut Ctx) {
     // (d) long adjacency lists: a hub with 9 .. 2100 parallel/out edges built by a burst of connects, then a
     // short checked history around the hub (try_connect in both directions with an edge in one direction
     // only, lookups, disconnects, isolate). Sizes sit on both sides of the powers of two.
-    let sizes: Vec<u32> = tier.pick(vec![9, 17, 33, 65, 129, 257, 513, 1025, 1100], vec![9, 17, 33, 65, 129, 257, 513, 1025, 2049, 2100, 4100]);
+    let sizes: Vec<u32> = tier.pick(vec![9, 17, 33, 65, 129, 257, 513, 1025, 2049, 4100], vec![9, 17, 33, 65, 129, 257, 513, 1025, 2049, 4100, 8200, 16_400]);
     let mut scripted: Vec<HistCase> = vec![];
     for &k in &sizes {
         for inward in [false, true] {
